@@ -8,6 +8,8 @@ GEN = os.path.join(checklib.LEAN, "Ecal", "Gen", "C08.lean")
 
 
 def decode(p):
+    if p.startswith("FMT "):
+        return {"format_tool_tree_variant": p[4:]}
     f = p.split(" ", 2)
     try:
         return {"source": bytes.fromhex(f[0]).decode("utf8", "replace") if f[0] != "-" else "",
@@ -73,7 +75,7 @@ SPEC = dict(
         "Ecal.Print.isPrint consults a table regenerated from strconv.IsPrint of the Go toolchain in use (lean/Ecal/Gen/C08Print.lean); quote_lex_roundtrip does not depend on it (it holds for every predicate that is false on the newline)",
         "tool.FormatFiles: tested only (file bytes = PrettyPrint text + newline on parseable sources, other extension untouched); unparseable files, sub-directories, symlinked roots, file modes and write errors are not exercised",
         "rt/idem/beh are computed by the real parser, printer and interpreter; the tree equality (names, values, nesting, raw-vs-interpolating kind; ignores positions, comments, blank lines) is implemented in the harness",
-        "go/ast extractor translating ppNeedsBrackets / astNodeMap / ndPrefix into lean/Ecal/Gen/C08.lean",
+        "go/ast extractor (harness C08 -tool gen) translating ppNeedsBrackets (control flow: if / switch / early returns / set literals / inlined helpers; the recursive helper ppIsProductChain stays an opaque node predicate, modelled by hand), astNodeMap, ndPrefix, the templates of prettyPrinterMap and the multi-line thresholds into lean/Ecal/Gen/C08.lean; the printer models RUN the extracted rule, templates and thresholds (hand copies only as fallback when the extractor does not understand the source)",
         "theorems are about the expression-level model and the string-literal model; statements, comments and blank lines are covered by the correspondence run only",
     ],
     assumptions=[
@@ -92,11 +94,13 @@ META = dict(
                "prettyprinter.go byte for byte; Go's own parse-print-parse / evaluate round trip on generated programs"),
     level_text=("Proof: for operator trees of ANY depth over the real table, outside the known class mul-right-brackets, the "
                 "printer's local bracket rule yields admissible parentheses and the Pratt parser reads the printed tokens back "
-                "to the same tree (hence idempotence there); lex(quote v)=v with allowEscapes=true for EVERY byte string on the real printer "
-                "and lexer models (Ecal.Print.quoteWith ip / Ecal.Lex.lexValue, for every printability predicate ip that is false on the newline); two parser-only lemmas on Ecal.Parse.run "
-                "(terminal, keyword + operand); bracket rule of return <value>; kind preserved for non-raw "
+                "to the same tree — also on the REAL parser model Ecal.Parse.run with the bracket rule extracted from the Go source (print_parse_expr_real_parser_partial; number atoms, no return operands) — hence idempotence there; lex(quote v)=v with allowEscapes=true for EVERY byte string on the real printer "
+                "and lexer models (Ecal.Print.quoteWith ip / Ecal.Lex.lexValue, for every printability predicate ip that is false on the newline); bracket rule of return <value>; kind preserved for non-raw "
                 "literals; negative witnesses for the two known classes. Statements, comments, blank lines: differential test "
                 "only (text identical to the model printer; Go round trip)."),
+    performance_note=("PrettyPrint is cubic in the nesting depth of if statements (observed by C07: 2500 levels take about two "
+                      "minutes) because every level re-indents the whole text of its body by textual replacement; not a violation "
+                      "of this property, generated programs stay far below such depths"),
     level_note=("Trusted: Lean kernel + propext/Classical.choice/Quot.sound; the extractor; the harness' tree equality. "
                 "FormatFiles is tested only. Known deviations with classifiers: raw-string-kind, mul-right-brackets, stmt-starts-with-sign, bare-return-at-end, "
                 "newline-inside-statement, layout-not-idempotent."),
